@@ -33,7 +33,7 @@ SHRINK_LISTS = ["ops", "items"]
 
 def generate(rng, run, tier):
     if rng.random() < 0.5:
-        plan = c01.generate(rng, run, tier)
+        plan = c01.gen_plan(rng, run, tier)
         plan["source"] = "real"
         plan["integration"] = "generic"
         if plan["cfg"]["entry"] in ("flat_frames",):
